@@ -2,6 +2,9 @@ CONSTANTS
   CodeKeys = TRUE
   HasFV = TRUE
   HasImages = TRUE
+  StoreFailed = FALSE
+  PosKeyMode = "abs"
+  IdxKeyMode = "abs"
 SPECIFICATION TSpec
 POSTCONDITION AllConsumed
 CHECK_DEADLOCK FALSE
